@@ -65,7 +65,7 @@ New(n, deps) ==
     [n |-> n, deps |-> deps, started |-> FALSE, subs |-> [i \in 1..MaxSubs |-> NoSub],
      optv |-> [i \in 1..MaxSubs |-> "N"], en |-> {}, depf |-> {}, on |-> {},
      fl |-> [m \in 1..n |-> NoFail], sf |-> {}, mg |-> FALSE, asg |-> [m \in 1..n |-> 0],
-     rec0 |-> [i \in 1..MaxSubs |-> {}], pend |-> <<>>, first |-> FALSE, nreg |-> 0, nfail |-> 0]
+     rec0 |-> [i \in 1..MaxSubs |-> {}], pend |-> <<>>, first |-> FALSE, nreg |-> 0]
 
 Regs(s) == {i \in 1..MaxSubs : s.subs[i].m # 0}
 SubMods(s) == {s.subs[i].m : i \in Regs(s)}
@@ -102,8 +102,7 @@ Recs(s) == [i \in 1..MaxSubs |-> Rec(s, i)]
 \* flags are rebuilt, unwanted modules are stopped (a stopped module loses its failure), wanted ones are started in
 \* dependency order; a failing start routine ends the pass early (modules that were ready at that time may or may
 \* not have been started)
-Pass(s, E) ==
-    IF E = s.en THEN {[on |-> s.on, fl |-> s.fl, en |-> s.en, depf |-> s.depf, err |-> FALSE]} ELSE
+PassRun(s, E) ==
     LET D == DepFlags(s, E)
         W == E \cup D
         on1 == s.on \cap W
@@ -115,26 +114,45 @@ Pass(s, E) ==
     IN UNION {{[on |-> O, en |-> E, depf |-> D, err |-> F # {},
                 fl |-> [m \in 1..s.n |-> IF m \in F THEN StartFailed ELSE fl1[m]]]
                : F \in {G \in SUBSET (Ready(O) \cap s.sf) : G = {} => Ready(O) = {}}} : O \in Cands}
+Pass(s, E) == IF E = s.en THEN {[on |-> s.on, fl |-> s.fl, en |-> s.en, depf |-> s.depf, err |-> FALSE]} ELSE PassRun(s, E)
 
 After(s, p) == [s EXCEPT !.on = p.on, !.fl = p.fl, !.en = p.en, !.depf = p.depf]
 
-\* the configurations awaiting handling (s.pend): the last one is handled for certain, each earlier one may have been
-\* handled on its own or merged into a later one (debounce)
-RECURSIVE Run(_, _)
-Run(s, i) ==     \* set of [st, anyerr, lasterr]
-    IF i > Len(s.pend) THEN {[st |-> s, anyerr |-> FALSE, lasterr |-> FALSE]} ELSE
-    LET skip == IF i < Len(s.pend) THEN Run(s, i + 1) ELSE {}
-        take == UNION {{[r EXCEPT !.anyerr = r.anyerr \/ p.err, !.lasterr = IF i = Len(s.pend) THEN p.err ELSE r.lasterr]
-                        : r \in Run(After(s, p), i + 1)} : p \in Pass(s, s.pend[i])}
-    IN skip \cup take
+\* Several configurations await handling (s.pend; config changes that followed each other without waiting, or the
+\* start and config changes).  The handlers debounce: a configuration may be handled on its own or be merged into a
+\* later one, and a handler may switch the enabled flags to a later configuration while the management pass of an
+\* earlier one is still running.  What is certain: if any enabled flag changes at all, the last change is followed by a
+\* complete pass under the flags of the LAST configuration.  Before it, modules may have been stopped (and have lost
+\* their failure) or started (or have failed to start) as far as SOME pending configuration does not want / wants them.
+RevDeps(s, m) == {r \in 1..s.n : m \in s.deps[r]}
+\* the enabled flags that can be seen while the pending configurations are handled: every subsystem module has the
+\* value of the old or of some pending configuration (the flags are switched subsystem by subsystem); the dependency
+\* flags of a running pass may stem from an earlier mix than the enabled flags
+Mixes(s) == LET confs == {s.en} \cup ToSet(s.pend) IN
+            {E \in SUBSET SubMods(s) : \A m \in SubMods(s) : \E X \in confs : (m \in E) = (m \in X)}
+CanWant(s, m) == \E E \in Mixes(s) : m \in E \cup DepFlags(s, E)
+CanUnwant(s, m) == (\E E \in Mixes(s) : m \notin E) /\ (\E E \in Mixes(s) : m \notin DepFlags(s, E))
+Micro(s, x) ==
+    {[on |-> x.on \ {m}, fl |-> [x.fl EXCEPT ![m] = NoFail]]
+        : m \in {y \in x.on : CanUnwant(s, y) /\ RevDeps(s, y) \cap x.on = {}}}
+    \cup {IF m \in s.sf THEN [on |-> x.on, fl |-> [x.fl EXCEPT ![m] = StartFailed]] ELSE [on |-> x.on \cup {m}, fl |-> x.fl]
+        : m \in {y \in (1..s.n) \ x.on : CanWant(s, y) /\ s.deps[y] \subseteq x.on}}
+RECURSIVE Reachable(_, _)
+Reachable(s, S) == LET T == S \cup UNION {Micro(s, x) : x \in S} IN IF T = S THEN S ELSE Reachable(s, T)
 
-\* "modulemgmt-failed" on the subsystems module after the burst
-MgSet(s, r) == IF Len(s.pend) = 0 THEN {s.mg}
-               ELSE IF Len(s.pend) = 1 THEN (IF s.first THEN {s.mg} ELSE {r.lasterr})
-               ELSE {FALSE} \cup (IF r.anyerr THEN {TRUE} ELSE {})
-
-\* the quiet states the system may be in when everything pending has been handled
-Quiet(s) == UNION {{[r.st EXCEPT !.pend = <<>>, !.first = FALSE, !.mg = g] : g \in MgSet(s, r)} : r \in Run(s, 1)}
+\* the quiet states the system may be in when everything pending has been handled; "modulemgmt-failed" on the
+\* subsystems module: the initial configuration reports no failure, a single config change reports the failure of its
+\* pass and resolves it otherwise, after several the last handler to finish decides
+Quiet(s) ==
+    IF Len(s.pend) = 0 THEN {s}
+    ELSE IF Len(s.pend) = 1 THEN
+        {[After(s, p) EXCEPT !.pend = <<>>, !.first = FALSE, !.mg = IF s.first THEN s.mg ELSE p.err] : p \in Pass(s, s.pend[1])}
+    ELSE LET last == s.pend[Len(s.pend)]
+             mids == Reachable(s, {[on |-> s.on, fl |-> s.fl]})
+             ends == UNION {PassRun([s EXCEPT !.on = x.on, !.fl = x.fl], last) : x \in mids}
+             mgs == IF s.sf = {} THEN {FALSE} ELSE {FALSE, TRUE}
+         IN (IF last = s.en THEN {[s EXCEPT !.pend = <<>>, !.first = FALSE, !.mg = FALSE]} ELSE {})
+            \cup {[After(s, p) EXCEPT !.pend = <<>>, !.first = FALSE, !.mg = g] : p \in ends, g \in mgs}
 
 \* ---------------------------------------------------------------------------------- steps
 Register(s, o) ==
@@ -153,11 +171,11 @@ SetOpt(s, o) ==
     IF ~HasOption(s, o.id) THEN {[res |-> "err", st |-> s]} ELSE
     LET t == [s EXCEPT !.optv[o.id] = o.v] IN {[res |-> "ok", st |-> [t EXCEPT !.pend = Append(s.pend, EnabledSet(t))]]}
 
-\* module level steps are made in a quiet system; the message of a failure is numbered by the driver (10 + ordinal)
+\* module level steps are made in a quiet system; a failure id stands for one title and message ("the given ID must be
+\* unique for the given title and message"): message 10 + id; a call with the id the module already has is ignored
 Fail(s, o) ==
-    LET t == [s EXCEPT !.nfail = s.nfail + 1] IN
-    {[res |-> "ok", st |-> IF s.fl[o.m].id = o.fid THEN t
-                           ELSE [t EXCEPT !.fl[o.m] = [lvl |-> o.lvl, id |-> o.fid, msg |-> 10 + s.nfail + 1]]]}
+    {[res |-> "ok", st |-> IF s.fl[o.m].id = o.fid THEN s
+                           ELSE [s EXCEPT !.fl[o.m] = [lvl |-> o.lvl, id |-> o.fid, msg |-> 10 + o.fid]]]}
 Resolve(s, o) ==
     {[res |-> "ok", st |-> IF o.fid = 0 \/ s.fl[o.m].id = o.fid THEN [s EXCEPT !.fl[o.m] = NoFail] ELSE s]}
 SFail(s, o) == {[res |-> "ok", st |-> [s EXCEPT !.sf = IF o.v = "T" THEN s.sf \cup {o.m} ELSE s.sf \ {o.m}]]}
